@@ -149,6 +149,21 @@ def check_case(case):
         both = _check_screen(s, sc)
         if both:
             labels.append("both-control-kinds-in-a-column")
+        # read-only uses of the screen (unique-condition filter, combination filter, views, experiment space) leave its encoding intact
+        from batchie.data import ExperimentSpace, filter_dataset_to_treatments_that_appear_in_at_least_one_combo, filter_dataset_to_unique_treatments
+
+        if sc["rows"]:
+            filter_dataset_to_unique_treatments(s)
+            filter_dataset_to_unique_treatments(s.subset(np.ones(s.size, dtype=bool)))
+            if sc["arity"] >= 2:
+                filter_dataset_to_treatments_that_appear_in_at_least_one_combo(s)
+            ExperimentSpace.from_screen(s)
+            [p_.size for p_ in s.plates]
+            s.subset_observed(), s.subset_unobserved()
+            try:
+                _check_screen(s, sc)
+            except Violation as v:
+                raise Violation("after_readonly_use." + v.sub_check, "after filtering / viewing the screen (operations that must not change it): " + v.message)
         # plates merged in place (handles taken once, so later merges use stale handles): the plate ids must remain the
         # dense 0..n-1 encoding of the CURRENT plate names (the plate mapping, which merge does not maintain, is not asserted)
         handles = list(s.plates)
